@@ -22,10 +22,10 @@ class C04(Prop):
     campaigns = {
         "quick": [("faultfree", 4000, 40), ("faults", 12000, 60), ("enumerated", 600, 60),
                   ("known:disjunction+for_all", 320, 30), ("known:disjunction+flatten", 320, 30),
-                  ("known:disjunction+nested_query", 320, 30), ("known:disjunction_over_different_variables", 320, 30)],
+                  ("known:disjunction+nested_query", 320, 30), ("known:predicate_with_repeated_variable", 320, 30), ("known:disjunction_over_different_variables", 320, 30), ("known:disjunction_of_multi_variable_conjunction", 320, 30)],
         "thorough": [("faultfree", 60000, 600), ("faults", 200000, 1500), ("enumerated", 12000, 1500),
                      ("known:disjunction+for_all", 4000, 300), ("known:disjunction+flatten", 4000, 300),
-                     ("known:disjunction+nested_query", 8000, 300), ("known:disjunction_over_different_variables", 20000, 300)],
+                     ("known:disjunction+nested_query", 8000, 300), ("known:predicate_with_repeated_variable", 4000, 300), ("known:disjunction_over_different_variables", 20000, 300), ("known:disjunction_of_multi_variable_conjunction", 20000, 300)],
     }
     chunk = 40
     rule = ("seeded pools of 1-3 `an` queries (+ `the` variants) over shared variables with explicit domains; "
